@@ -560,6 +560,85 @@ def titan_param_paths(rep, rnd):
     rep.add("titan_lines_with_semicolons", n)
 
 
+def titan_segmentation(rep, rnd):
+    """C07 with the real upload handler behind the connection: an upload is refused for one of several reasons (the chain
+    says no; the token is missing or wrong; the declared size is over the handler's limit; the media type is not allowed) or
+    accepted - and which of these the client is told, and what is on disk afterwards, must not depend on whether the content
+    came in the same read as the request line, later, or byte by byte."""
+    import asyncio
+    import shutil
+    from nauyaca.protocol.response import GeminiResponse
+    from nauyaca.server.handler import FileUploadHandler
+    from nauyaca.server.middleware import MiddlewareChain
+    from nauyaca.server.protocol import GeminiServerProtocol
+    from vf.transports import FakeTransport
+    from vf.vloop import VLoop
+
+    class Deny:
+        async def process_request(self, url, ip, fp=None):
+            return False, "60 Client certificate required\r\n"
+
+    class Allow:
+        async def process_request(self, url, ip, fp=None):
+            return True, None
+    n = 0
+    for chain_name in ("none", "allow", "deny"):
+        for tokens in (None, {"good"}):
+            for size in (3, 8, 9, 40):
+                for tok in ("", ";token=bad", ";token=good"):
+                    for mime in ("", ";mime=text/plain", ";mime=image/png"):
+                        if rnd.random() < 0.5 and not (size > 8 and tok != ";token=good"):
+                            continue
+                        line = ("titan://h.ex/f%d.gmi;size=%d%s%s\r\n" % (n, size, mime, tok)).encode()
+                        content = bytes(65 + (i % 26) for i in range(size))
+                        data = line + content
+                        segs = {"one read": [data], "line, then content": [line, content],
+                                "byte by byte": [data[i:i + 1] for i in range(len(data))],
+                                "line without CRLF, rest": [line[:-2], line[-2:] + content],
+                                "line and first content byte, rest": [line + content[:1], content[1:]],
+                                "half the line, rest": [line[:len(line) // 2], line[len(line) // 2:] + content]}
+                        outs = {}
+                        for name, chunks in segs.items():
+                            d = tempfile.mkdtemp(prefix="vf-tseg-", dir="/dev/shm" if os.path.isdir("/dev/shm") else None)
+                            loop = VLoop()
+                            asyncio.set_event_loop(loop)
+                            try:
+                                with open(os.path.join(d, "keep.gmi"), "w") as f:
+                                    f.write("old\n")
+                                up = FileUploadHandler(d, max_size=8, allowed_types=["text/gemini", "text/plain"], auth_tokens=tokens)
+                                chain = None if chain_name == "none" else MiddlewareChain([Allow() if chain_name == "allow" else Deny()])
+                                proto = GeminiServerProtocol(lambda r: GeminiResponse(status=51, meta="no"), chain, up)
+                                tr = FakeTransport(loop, proto, peername=("192.0.2.7", 40000), auto_lost=True)
+                                loop.call(proto.connection_made, tr)
+                                for c in chunks:
+                                    if c and not tr.is_closing():
+                                        loop.call(tr.feed, c)
+                                        loop.run_idle()
+                                loop.run_idle()
+                                tree = {}
+                                for fn in sorted(os.listdir(d)):
+                                    with open(os.path.join(d, fn), "rb") as f:
+                                        tree[fn] = f.read().decode("latin-1")
+                                outs[name] = {"wire": bytes(tr.wire).decode("latin-1"), "closed": bool(tr.is_closing()), "tree": tree}
+                            except Exception as e:  # noqa: BLE001
+                                outs[name] = {"error": repr(e)}
+                            finally:
+                                asyncio.set_event_loop(None)
+                                loop.close()
+                                shutil.rmtree(d, ignore_errors=True)
+                        n += 1
+                        base = outs["one read"]
+                        for name, o in outs.items():
+                            if o != base:
+                                rep.violation({"formula": "SegIndep", "titan_real_handler": True, "chain": chain_name, "tokens": bool(tokens)},
+                                              "SegIndep falsified: upload %r (chain %s, handler %s, limit 8 bytes): delivered in one read the outcome is %s; delivered as %s (%s) it is %s" % (
+                                                  line, chain_name, "with tokens" if tokens else "without tokens", base, name,
+                                                  [len(c) for c in segs[name]], o), None)
+                                break
+    rep.add("titan_uploads_resegmented_real_handler", n)
+    rep.add("traces_validated_against_impl", n)
+
+
 def binding_selftest(rep, rnd):
     """Demonstrate that the trace spec constrains: corrupt one logged field / drop one event of accepted
     traces and require rejection."""
@@ -634,6 +713,8 @@ def main(pid, rep=None, finish=True):
             suspects.append(("trace", t, {"cfg": t["cfg"], "steps": t["steps"]}))
         if pid == "C04":
             titan_param_paths(rep, rnd)
+        if pid == "C07":
+            titan_segmentation(rep, rnd)
         mt = micro_runs(rep, 4000 if thorough else 800, rnd, rep.seed)
         rep.add("loop_iteration_grain_runs", len(mt))
         rep.add("traces_validated_against_impl", len(mt))
